@@ -54,7 +54,7 @@ def bounds(tier):
 
 
 def shards(tier):
-    out = [("set", src, si) for src in ("parsed", "db") for si in range(len(SETTERS))]
+    out = [("set", src, si) for src in ("parsed", "db", "parsed_empty") for si in range(len(SETTERS))]
     out += [("json", n, v0) for n in (1, 2, 3) for v0 in range(len(values_of(tier)))]
     out += [("merge", i) for i in range(len(MVALS) ** 2)]
     out += [("eq", i) for i in range(24)]
@@ -80,7 +80,13 @@ def body_set(ch, ctx):
     v = ch.choose("value", values_of(ctx.tier))
     key = ch.choose("key", ("Name", "fresh"))
     switch = ch.choose("always_return_list", (True, False))
-    if src == "parsed":
+    if src == "parsed_empty":
+        # a line whose ninth column is empty: its attributes must be the same kind of container all the same
+        if key == "Name":
+            ctx.outcome("skipped")
+            return
+        f = feature_from_line("\t".join(LINE.split("\t")[:8]) + "\t", keep_order=True)
+    elif src == "parsed":
         f = feature_from_line(LINE, keep_order=True)
     else:
         f = get_db(ctx)["abc"]
@@ -137,7 +143,7 @@ def body_set(ch, ctx):
               without=printed_other if switch else printed_here)
     ctx.check(tup_here == tup_other and json_here == json_other, "stored-form-depends-on-always_return_list", sig, a=json_here, b=json_other)
     # absolute expectation for the printed line (GFF3 default dialect, keep_order)
-    exp_items = [("ID", ["abc"]), ("Name", ["n1", "n2"]), ("tag", ["t"])]
+    exp_items = [("ID", ["abc"]), ("Name", ["n1", "n2"]), ("tag", ["t"])] if src != "parsed_empty" else []
     if not (setter == "setdefault" and key == "Name"):
         if key == "Name":
             exp_items[1] = ("Name", want)
